@@ -59,6 +59,13 @@ type nfRule struct {
 	cmOp         string // CONNMARK: save | restore | set
 	zone         int
 	raw          string
+	jump         *nfChain // resolved user-chain target (nil: built-in target, no target, or undeclared chain)
+}
+
+// nfChain is a chain after linking; rules is the final order after all -A / -I commands.
+type nfChain struct {
+	table string
+	rules []*nfRule
 }
 
 type nfTable struct {
@@ -71,6 +78,7 @@ type ruleset struct {
 	fam    int // 4 or 6
 	tables map[string]*nfTable
 	lint   []string
+	plan   map[string][]*nfChain // hook -> built-in chains of the tables registered there, in kernel order
 }
 
 // the built-in chains every table has (iptables(8), section TABLES)
@@ -179,7 +187,35 @@ func parseRuleset(text string, fam int) (rs *ruleset, err error) {
 		bad("table %s not committed", cur.name)
 	}
 	rs.check()
+	rs.link()
 	return rs, nil
+}
+
+// link resolves jumps and the per-hook table order once, so that evaluation does no look-ups.
+func (rs *ruleset) link() {
+	linked := map[string]*nfChain{}
+	for tn, t := range rs.tables {
+		for cn, rules := range t.chains {
+			linked[tn+"/"+cn] = &nfChain{table: tn, rules: rules}
+		}
+	}
+	for tn, t := range rs.tables {
+		for _, rules := range t.chains {
+			for _, r := range rules {
+				if r.target != "" && !builtinTargets[r.target] && t.declared[r.target] {
+					r.jump = linked[tn+"/"+r.target]
+				}
+			}
+		}
+	}
+	rs.plan = map[string][]*nfChain{}
+	for hook, order := range tableOrder {
+		for _, tn := range order {
+			if c := linked[tn+"/"+hook]; c != nil {
+				rs.plan[hook] = append(rs.plan[hook], c)
+			}
+		}
+	}
 }
 
 func (rs *ruleset) lintf(format string, a ...any) { rs.lint = append(rs.lint, fmt.Sprintf(format, a...)) }
@@ -686,9 +722,9 @@ type pkt struct {
 
 type hookResult struct {
 	dropped bool
-	nat     string // "" | "REDIRECT:<port>"
-	tproxy  string // "" | "TPROXY:<port>"
-	zone    int    // conntrack zone assigned in raw (-1 none)
+	nat     int // 0 | port of the REDIRECT taken in nat
+	tproxy  int // 0 | port of the TPROXY taken in mangle
+	zone    int // conntrack zone assigned in raw (-1 none)
 	trace   []string
 }
 
@@ -780,16 +816,14 @@ var tableOrder = map[string][]string{
 // decision of this manipulation type was already taken at an earlier hook (nat is consulted once).
 func (rs *ruleset) runHook(p *pkt, skipNAT, trace bool) hookResult {
 	res := hookResult{zone: -1}
-	order, ok := tableOrder[p.hook]
-	if !ok {
+	if _, ok := tableOrder[p.hook]; !ok {
 		panic("netfilter interpreter: hook " + p.hook + " not modelled")
 	}
-	for _, tn := range order {
-		t := rs.tables[tn]
-		if t == nil || (tn == "nat" && skipNAT) {
+	for _, c := range rs.plan[p.hook] {
+		if c.table == "nat" && skipNAT {
 			continue
 		}
-		if v := rs.runChain(t, p.hook, p, &res, trace, 0); v == vDrop {
+		if v := runChain(c, p, &res, trace, 0); v == vDrop {
 			res.dropped = true
 			return res
 		}
@@ -797,19 +831,25 @@ func (rs *ruleset) runHook(p *pkt, skipNAT, trace bool) hookResult {
 	return res
 }
 
-func (rs *ruleset) runChain(t *nfTable, chain string, p *pkt, res *hookResult, trace bool, depth int) chainVerdict {
+func runChain(c *nfChain, p *pkt, res *hookResult, trace bool, depth int) chainVerdict {
 	if depth > 16 {
 		return vContinue // loops are reported by check(); do not hang
 	}
 rules:
-	for _, r := range t.chains[chain] {
+	for _, r := range c.rules {
 		for i := range r.matches {
 			if !r.matches[i].holds(p) {
 				continue rules
 			}
 		}
 		if trace {
-			res.trace = append(res.trace, t.name+": "+r.raw)
+			res.trace = append(res.trace, c.table+": "+r.raw)
+		}
+		if r.jump != nil {
+			if v := runChain(r.jump, p, res, trace, depth+1); v != vContinue {
+				return v
+			}
+			continue
 		}
 		switch r.target {
 		case "":
@@ -824,10 +864,10 @@ rules:
 			if r.toPort != 0 {
 				port = r.toPort
 			}
-			res.nat = "REDIRECT:" + strconv.Itoa(port)
+			res.nat = port
 			return vAccept
 		case "TPROXY":
-			res.tproxy = "TPROXY:" + strconv.Itoa(r.toPort)
+			res.tproxy = r.toPort
 			p.mark = (p.mark &^ r.setMask) ^ r.setVal
 			return vAccept
 		case "MARK":
@@ -844,12 +884,7 @@ rules:
 		case "CT":
 			res.zone = r.zone
 		default:
-			if !t.declared[r.target] {
-				continue // reported by check()
-			}
-			if v := rs.runChain(t, r.target, p, res, trace, depth+1); v != vContinue {
-				return v
-			}
+			// jump to a chain that does not exist: reported by check(); the rule cannot be loaded
 		}
 	}
 	return vContinue
